@@ -36,7 +36,8 @@ void pv_msan_unpoison(const void* p, size_t n) { __msan_unpoison(p, n); }
 
 /* stubs suspend the "inside the library" marker while they run, so that libc calls made by the
  * monitors themselves are never attributed to the library (C18 wraps) */
-#define STUB_ENTER int _saved = pv_in_lib; pv_in_lib = 0; pv_world* w = pv_w; maybe_yield(w)
+extern bool pv_static_probe_in_callbacks; void pv_static_stub_probe(void);
+#define STUB_ENTER int _saved = pv_in_lib; pv_in_lib = 0; pv_world* w = pv_w; if (pv_static_probe_in_callbacks) pv_static_stub_probe(); maybe_yield(w)
 #define STUB_LEAVE pv_in_lib = _saved
 
 static void maybe_yield(pv_world* w) {
@@ -400,6 +401,27 @@ bool pv_concurrent_verdict(const pv_conc_result* res, int nthreads, int iters, c
     return clean;
 }
 
+#include <sys/wait.h>
+#include <signal.h>
+int pv_fork_case(int (*fn)(void* arg), void* arg, int seconds) {
+    fflush(NULL);
+    pid_t pid = fork();
+    if (pid < 0) pv_fatal("fork failed");
+    if (pid == 0) {
+        /* the child reports through its exit status only: default signal dispositions, no result/crash files */
+        int sigs[] = { SIGSEGV, SIGABRT, SIGBUS, SIGFPE, SIGILL, SIGALRM };
+        for (unsigned i = 0; i < sizeof sigs / sizeof *sigs; ++i) signal(sigs[i], SIG_DFL);
+        alarm((unsigned)seconds);
+        int rc = fn(arg);
+        _exit(rc & 0xff);
+    }
+    int st = 0;
+    while (waitpid(pid, &st, 0) < 0) { }
+    if (WIFEXITED(st)) return WEXITSTATUS(st);
+    if (WIFSIGNALED(st)) return WTERMSIG(st) == SIGALRM ? -1000 : -WTERMSIG(st);
+    return -999;
+}
+
 /* ------------------------------------------------------------------ generators */
 void pv_gen_secret(pv_rng* r, uint8_t sec[PV_SECRET]) {
     uint32_t k = pv_randn(r, 16);
@@ -509,7 +531,7 @@ bool pv_gen_ambiguous(pv_rng* r, int a, int b, unsigned coin, unsigned enabled, 
 }
 
 /* ------------------------------------------------------------------ static-storage monitor */
-typedef struct srange { uint8_t* lo; size_t len; char obj[48]; char sec[16]; bool tls; size_t tls_off; uint8_t* snap; } srange;
+typedef struct srange { uint8_t* lo; size_t len; char obj[48]; char sec[16]; bool tls; size_t tls_off; uint8_t* snap; uint8_t* once; } srange;
 static srange sr[128]; static int nsr; static size_t static_skipped_bytes;
 static uintptr_t exe_base; static size_t tls_memsz, tls_align, tls_vaddr; static bool have_tls;
 static int phdr_cb(struct dl_phdr_info* info, size_t size, void* data) {
@@ -560,7 +582,7 @@ int pv_static_init(void) {
         r->len = (size_t)len; r->tls = tls;
         if (tls) { if (!have_tls || addr < tls_vaddr || addr - tls_vaddr + len > tls_memsz) { --nsr; continue; } r->tls_off = (size_t)(addr - tls_vaddr); }
         else r->lo = (uint8_t*)(exe_base + (uintptr_t)addr);
-        r->snap = malloc(r->len);
+        r->snap = malloc(r->len); r->once = calloc(r->len, 1);
     }
     fclose(f);
     return nsr;
@@ -574,19 +596,32 @@ static bool range_equal(const uint8_t* p, const uint8_t* q, size_t n) {
     for (; i < n; ++i) if (p[i] != q[i]) return false;
     return true;
 }
-uint64_t pv_static_digest(void) {           /* 0 = unchanged since the last snapshot, otherwise 1 + index of the first changed range */
-    for (int i = 0; i < nsr; ++i) { const uint8_t* p = range_ptr(&sr[i]); if (p && sr[i].snap && !range_equal(p, sr[i].snap, sr[i].len)) return (uint64_t)i + 1; }
-    return 0;
+/* Rule: a byte of the library's static / thread-local storage may change ONCE in the life of the process outside
+ * polyseed_inject / polyseed_enable_features (one-time lazy initialisation of a derived table is invisible to every caller and is
+ * tolerated here; whether it is race-free is C20's business).  A byte that changes a second time is mutable hidden state: a cache,
+ * a "last used" hint, a counter, a scratch buffer that is filled and wiped.  The probe also runs inside the dependency callbacks,
+ * where a scratch buffer is caught while it is in use. */
+static bool st_pending; static char st_msg[200];
+__attribute__((no_sanitize("address")))
+static void static_scan(const char* where) {
+    uint64_t once_bytes = 0;
+    for (int i = 0; i < nsr; ++i) {
+        const uint8_t* p = range_ptr(&sr[i]); if (!p || !sr[i].snap) continue;
+        if (range_equal(p, sr[i].snap, sr[i].len)) continue;
+        for (size_t k = 0; k < sr[i].len; ++k) if (p[k] != sr[i].snap[k]) {
+            if (sr[i].once[k]) { if (!st_pending) { st_pending = true; snprintf(st_msg, sizeof st_msg, "%s %s+%zu (%zu-byte %s range) changed again%s", sr[i].obj, sr[i].sec, k, sr[i].len, sr[i].tls ? "thread-local" : "static", where); } }
+            else { sr[i].once[k] = 1; ++once_bytes; }
+            sr[i].snap[k] = p[k];
+        }
+    }
+    if (once_bytes) pv_count_dyn("static_storage.bytes_that_changed_once(tolerated: one-time initialisation)", once_bytes);
 }
+uint64_t pv_static_digest(void) { static_scan(""); bool r = st_pending; st_pending = false; return r ? 1 : 0; }   /* 0 = nothing changed a second time since the last call */
+bool pv_static_probe_in_callbacks;
+void pv_static_stub_probe(void) { static unsigned n; if (nsr && (++n % 6) == 0) static_scan(" (seen inside a dependency callback)"); }     /* a sample of the callbacks: a scratch buffer is in use during every one of them */
 __attribute__((no_sanitize("address")))
 void pv_static_snapshot(void) { for (int i = 0; i < nsr; ++i) { const uint8_t* p = range_ptr(&sr[i]); if (p && sr[i].snap) for (size_t k = 0; k < sr[i].len; ++k) sr[i].snap[k] = p[k]; } }
-__attribute__((no_sanitize("address")))
-const char* pv_static_diff(void) {
-    static __thread char msg[200];
-    for (int i = 0; i < nsr; ++i) { const uint8_t* p = range_ptr(&sr[i]); if (!p || !sr[i].snap) continue;
-        for (size_t k = 0; k < sr[i].len; ++k) if (p[k] != sr[i].snap[k]) { snprintf(msg, sizeof msg, "%s %s+%zu (%zu-byte %s range)", sr[i].obj, sr[i].sec, k, sr[i].len, sr[i].tls ? "thread-local" : "static"); return msg; } }
-    return "(no difference found)";
-}
+const char* pv_static_diff(void) { return st_msg; }
 
 
 void pv_lang_length_range(const pv_mlang* L, long* min_total, long* max_total) {
